@@ -15,6 +15,9 @@ package datarecording
 //@ ghost var c35Val map2
 //@ ghost var c35CurTyp int
 //@ ghost var c35CurVal int
+// c35Q: scratch flag of Flush's loops (declared globally only so that it is defined on every path): "so far no call of
+// insertEntryForTable found the guarded data changed by another holder of the lock"
+//@ ghost var c35Q bool
 
 // TRUSTED (standard library): executing a prepared statement appends one row to the statement's log; the error is arbitrary.
 //@ ext database/sql.(*Stmt).ExecContext(s, ctx, args)
@@ -157,7 +160,7 @@ package datarecording
 //@   ensures quiet ==> (forall k int :: k in t.tables && k != "location" ==> len(t.tables[k].entries) == old(len(t.tables[k].entries)) && ref(t.tables[k].entries) == old(ref(t.tables[k].entries)) && off(t.tables[k].entries) == old(off(t.tables[k].entries)))
 //@   label C35.row.inv
 //@   ensures c35Disj(t) && c35LocBij(t)
-//@   assigns key("O|datarecording.table|.entries"), key("E|any|"), t.entryCount, elems(t.locationInfo), c35Cnt, c35Typ, c35Val, c35CurTyp, c35CurVal
+//@   assigns key("O|datarecording.table|.entries"), table.entries, key("E|any|"), t.entryCount, elems(t.locationInfo), c35Cnt, c35Typ, c35Val, c35CurTyp, c35CurVal
 //@   loop 0: invariant 0 <= i && (fresh(v) || cap(v) == 0) && c35Disj(t) && c35LocBij(t)
 //@   loop 0: invariant cap(v) > 0 ==> (forall k int :: k in t.tables ==> ref(t.tables[k].entries) != ref(v))
 //@   loop 0: invariant c35Cnt == old(c35Cnt) && c35Typ == old(c35Typ) && c35Val == old(c35Val) && c35CurTyp == typeid(task) && c35CurVal == ifaceval(task)
@@ -176,6 +179,7 @@ package datarecording
 //@   property C35
 //@   requires c35Shape(t) && c35Disj(t) && c35LocBij(t)
 //@   panics any
+//@   witness atomic bool = Flush_atomic
 //@   label C35.insert.exists
 //@   ensures old(tableName in t.tables)
 //@   label C35.insert.batched
@@ -191,14 +195,14 @@ package datarecording
 //@   ensures atlock(t.entryCount) < MaxInt64 && atlock(t.entryCount) + 1 < t.batchSize ==>
 //@     (forall k int :: k in t.tables && k != tableName ==> len(t.tables[k].entries) == atlock(len(t.tables[k].entries)) && ref(t.tables[k].entries) == atlock(ref(t.tables[k].entries)))
 //@   label C35.insert.flushed
-//@   ensures tableName != "location" && 0 <= atlock(t.entryCount) && atlock(t.entryCount) < MaxInt64 && atlock(t.entryCount) + 1 >= t.batchSize ==>
+//@   ensures atomic && tableName != "location" && 0 <= atlock(t.entryCount) && atlock(t.entryCount) < MaxInt64 && atlock(t.entryCount) + 1 >= t.batchSize ==>
 //@        len(t.tables[tableName].entries) == 0
 //@     && c35Cnt[t.tables[tableName].statement] == old(c35Cnt)[t.tables[tableName].statement] + atlock(len(t.tables[tableName].entries)) + 1
 //@     && c35Typ[t.tables[tableName].statement][c35Cnt[t.tables[tableName].statement] - 1] == typeid(entry)
 //@     && c35Val[t.tables[tableName].statement][c35Cnt[t.tables[tableName].statement] - 1] == ifaceval(entry)
 //@   label C35.insert.inv
 //@   ensures c35Disj(t) && c35LocBij(t)
-//@   assigns key("O|datarecording.table|.entries"), key("E|any|"), t.entryCount, elems(t.locationInfo), c35Cnt, c35Typ, c35Val, c35CurTyp, c35CurVal
+//@   assigns key("O|datarecording.table|.entries"), key("E|any|"), t.entryCount, elems(t.locationInfo), c35Cnt, c35Typ, c35Val, c35CurTyp, c35CurVal, c35Q
 
 // ---------------------------------------------------------------------------------------------------------------------
 // Flushing. No lock is taken here: flushLocationTable is read sequentially.
@@ -239,46 +243,50 @@ package datarecording
 //@   property C35
 //@   requires c35Shape(t) && c35Disj(t) && c35LocBij(t)
 //@   panics any
+//@   witness atomic bool = c35Q
 //@   label C35.flush.idle
 //@   ensures old(t.entryCount) == 0 ==> c35Cnt == old(c35Cnt) && c35Typ == old(c35Typ) && c35Val == old(c35Val) && (forall k int :: k in t.tables ==> c35HdrOld(t, k))
 //@   label C35.flush.count
-//@   ensures old(t.entryCount) != 0 ==> (forall k int :: k in t.tables && k != "location" ==> c35Cnt[c35St(t, k)] == old(c35Cnt)[c35St(t, k)] + old(len(t.tables[k].entries)))
+//@   ensures old(t.entryCount) != 0 && atomic ==> (forall k int :: k in t.tables && k != "location" ==> c35Cnt[c35St(t, k)] == old(c35Cnt)[c35St(t, k)] + old(len(t.tables[k].entries)))
 //@   label C35.flush.order
-//@   ensures old(t.entryCount) != 0 ==> (forall k int :: k in t.tables && k != "location" ==> (forall j in 0..old(len(t.tables[k].entries)) :: c35Typ[c35St(t, k)][old(c35Cnt)[c35St(t, k)] + j] == typeid(old(t.tables[k].entries[j])) && c35Val[c35St(t, k)][old(c35Cnt)[c35St(t, k)] + j] == ifaceval(old(t.tables[k].entries[j]))))
+//@   ensures old(t.entryCount) != 0 && atomic ==> (forall k int :: k in t.tables && k != "location" ==> (forall j in 0..old(len(t.tables[k].entries)) :: c35Typ[c35St(t, k)][old(c35Cnt)[c35St(t, k)] + j] == typeid(old(t.tables[k].entries[j])) && c35Val[c35St(t, k)][old(c35Cnt)[c35St(t, k)] + j] == ifaceval(old(t.tables[k].entries[j]))))
 //@   label C35.flush.empty
-//@   ensures old(t.entryCount) != 0 ==> (forall k int :: k in t.tables ==> len(t.tables[k].entries) == 0)
+//@   ensures old(t.entryCount) != 0 && atomic ==> (forall k int :: k in t.tables ==> len(t.tables[k].entries) == 0)
 //@   label C35.flush.location
-//@   ensures old(t.entryCount) != 0 ==> c35Cnt[c35LocStmt(t)] >= old(c35Cnt)[c35LocStmt(t)] + old(len(t.tables["location"].entries))
+//@   ensures old(t.entryCount) != 0 && atomic ==> c35Cnt[c35LocStmt(t)] >= old(c35Cnt)[c35LocStmt(t)] + old(len(t.tables["location"].entries))
 //@   label C35.flush.oldrows
 //@   ensures forall s int, n int :: n < old(c35Cnt)[s] ==> c35Typ[s][n] == old(c35Typ)[s][n] && c35Val[s][n] == old(c35Val)[s][n]
 //@   label C35.flush.reset
-//@   ensures old(t.entryCount) != 0 ==> t.entryCount == 0
+//@   ensures old(t.entryCount) != 0 && atomic ==> t.entryCount == 0
 //@   label C35.flush.inv
 //@   ensures c35Disj(t) && c35LocBij(t)
-//@   assigns key("O|datarecording.table|.entries"), key("E|any|"), t.entryCount, elems(t.locationInfo), c35Cnt, c35Typ, c35Val, c35CurTyp, c35CurVal
-//  ---- loop 0: the tables, in map order
+//@   assigns key("O|datarecording.table|.entries"), key("E|any|"), t.entryCount, elems(t.locationInfo), c35Cnt, c35Typ, c35Val, c35CurTyp, c35CurVal, c35Q
+//  ---- loop 0: the tables, in map order. c35Q = "no call of insertEntryForTable so far found the guarded data changed by somebody else"
+//@   loop 0: ghost c35Q = true
+//@   loop 0: backedge c35Q = c35Q
 //@   loop 0: invariant old(t.entryCount) != 0 && c35Disj(t) && c35LocBij(t)
-//@   loop 0: invariant forall k int :: k in t.tables && k != "location" ==> c35Cnt[c35St(t, k)] == old(c35Cnt)[c35St(t, k)] + (visited(k) ? old(len(t.tables[k].entries)) : 0)
-//@   loop 0: invariant forall k int :: k in t.tables && k != "location" ==> (visited(k) ? len(t.tables[k].entries) == 0 : c35HdrOld(t, k))
-//@   loop 0: invariant forall k int :: k in t.tables && k != "location" && !visited(k) ==> (forall j in 0..old(len(t.tables[k].entries)) :: t.tables[k].entries[j] == old(t.tables[k].entries[j]))
-//@   loop 0: invariant forall k int :: k in t.tables && k != "location" && visited(k) ==> (forall j in 0..old(len(t.tables[k].entries)) :: c35Typ[c35St(t, k)][old(c35Cnt)[c35St(t, k)] + j] == typeid(old(t.tables[k].entries[j])) && c35Val[c35St(t, k)][old(c35Cnt)[c35St(t, k)] + j] == ifaceval(old(t.tables[k].entries[j])))
+//@   loop 0: invariant forall s int :: c35Cnt[s] >= old(c35Cnt)[s]
+//@   loop 0: invariant c35Q ==> (forall k int :: k in t.tables && k != "location" ==> c35Cnt[c35St(t, k)] == old(c35Cnt)[c35St(t, k)] + (visited(k) ? old(len(t.tables[k].entries)) : 0))
+//@   loop 0: invariant c35Q ==> (forall k int :: k in t.tables && k != "location" ==> (visited(k) ? len(t.tables[k].entries) == 0 : c35HdrOld(t, k)))
+//@   loop 0: invariant c35Q ==> (forall k int :: k in t.tables && k != "location" && !visited(k) ==> (forall j in 0..old(len(t.tables[k].entries)) :: t.tables[k].entries[j] == old(t.tables[k].entries[j])))
+//@   loop 0: invariant c35Q ==> (forall k int :: k in t.tables && k != "location" && visited(k) ==> (forall j in 0..old(len(t.tables[k].entries)) :: c35Typ[c35St(t, k)][old(c35Cnt)[c35St(t, k)] + j] == typeid(old(t.tables[k].entries[j])) && c35Val[c35St(t, k)][old(c35Cnt)[c35St(t, k)] + j] == ifaceval(old(t.tables[k].entries[j]))))
 //@   loop 0: invariant forall s int, n int :: n < old(c35Cnt)[s] ==> c35Typ[s][n] == old(c35Typ)[s][n] && c35Val[s][n] == old(c35Val)[s][n]
 //@   loop 0: invariant len(t.tables["location"].entries) >= old(len(t.tables["location"].entries)) && c35Cnt[c35LocStmt(t)] == old(c35Cnt)[c35LocStmt(t)]
-//  ---- loop 1: the batch of the current table
-//@   loop 1: ghost q = true
-//@   loop 1: backedge q = q && insertEntryForTable_quiet
-//@   label C35.flush.atomic
-//@   loop 1: invariant q
+//  ---- loop 1: the batch of the current table (same ghost c35Q: it carries over from and back to loop 0)
+//@   loop 1: ghost c35Q = c35Q
+//@   loop 1: backedge c35Q = c35Q && insertEntryForTable_quiet
 //@   loop 1: invariant old(t.entryCount) != 0 && c35Disj(t) && c35LocBij(t)
 //@   loop 1: invariant tableName in t.tables && tableName != "location" && table == t.tables[tableName] && visited(tableName)
-//@   loop 1: invariant -1 <= rangeindex && rangeindex < old(len(t.tables[tableName].entries))
-//@   loop 1: invariant c35Cnt[table.statement] == old(c35Cnt)[table.statement] + rangeindex + 1
-//@   loop 1: invariant q ==> c35HdrOld(t, tableName)
-//@   loop 1: invariant q ==> (forall j in 0..old(len(t.tables[tableName].entries)) :: t.tables[tableName].entries[j] == old(t.tables[tableName].entries[j]))
-//@   loop 1: invariant forall j in 0..rangeindex + 1 :: c35Typ[table.statement][old(c35Cnt)[table.statement] + j] == typeid(old(t.tables[tableName].entries[j])) && c35Val[table.statement][old(c35Cnt)[table.statement] + j] == ifaceval(old(t.tables[tableName].entries[j]))
-//@   loop 1: invariant forall k int :: k in t.tables && k != "location" && k != tableName ==> c35Cnt[c35St(t, k)] == old(c35Cnt)[c35St(t, k)] + (visited(k) ? old(len(t.tables[k].entries)) : 0)
-//@   loop 1: invariant q ==> (forall k int :: k in t.tables && k != "location" && k != tableName ==> (visited(k) ? len(t.tables[k].entries) == 0 : c35HdrOld(t, k)))
-//@   loop 1: invariant q ==> (forall k int :: k in t.tables && k != "location" && !visited(k) ==> (forall j in 0..old(len(t.tables[k].entries)) :: t.tables[k].entries[j] == old(t.tables[k].entries[j])))
-//@   loop 1: invariant forall k int :: k in t.tables && k != "location" && k != tableName && visited(k) ==> (forall j in 0..old(len(t.tables[k].entries)) :: c35Typ[c35St(t, k)][old(c35Cnt)[c35St(t, k)] + j] == typeid(old(t.tables[k].entries[j])) && c35Val[c35St(t, k)][old(c35Cnt)[c35St(t, k)] + j] == ifaceval(old(t.tables[k].entries[j])))
+//@   loop 1: invariant -1 <= rangeindex
+//@   loop 1: invariant c35Q ==> rangeindex < old(len(t.tables[tableName].entries))
+//@   loop 1: invariant c35Q ==> c35Cnt[table.statement] == old(c35Cnt)[table.statement] + rangeindex + 1
+//@   loop 1: invariant c35Q ==> c35HdrOld(t, tableName)
+//@   loop 1: invariant c35Q ==> (forall j in 0..old(len(t.tables[tableName].entries)) :: t.tables[tableName].entries[j] == old(t.tables[tableName].entries[j]))
+//@   loop 1: invariant c35Q ==> (forall j in 0..rangeindex + 1 :: c35Typ[table.statement][old(c35Cnt)[table.statement] + j] == typeid(old(t.tables[tableName].entries[j])) && c35Val[table.statement][old(c35Cnt)[table.statement] + j] == ifaceval(old(t.tables[tableName].entries[j])))
+//@   loop 1: invariant forall s int :: c35Cnt[s] >= old(c35Cnt)[s]
+//@   loop 1: invariant c35Q ==> (forall k int :: k in t.tables && k != "location" && k != tableName ==> c35Cnt[c35St(t, k)] == old(c35Cnt)[c35St(t, k)] + (visited(k) ? old(len(t.tables[k].entries)) : 0))
+//@   loop 1: invariant c35Q ==> (forall k int :: k in t.tables && k != "location" && k != tableName ==> (visited(k) ? len(t.tables[k].entries) == 0 : c35HdrOld(t, k)))
+//@   loop 1: invariant c35Q ==> (forall k int :: k in t.tables && k != "location" && !visited(k) ==> (forall j in 0..old(len(t.tables[k].entries)) :: t.tables[k].entries[j] == old(t.tables[k].entries[j])))
+//@   loop 1: invariant c35Q ==> (forall k int :: k in t.tables && k != "location" && k != tableName && visited(k) ==> (forall j in 0..old(len(t.tables[k].entries)) :: c35Typ[c35St(t, k)][old(c35Cnt)[c35St(t, k)] + j] == typeid(old(t.tables[k].entries[j])) && c35Val[c35St(t, k)][old(c35Cnt)[c35St(t, k)] + j] == ifaceval(old(t.tables[k].entries[j]))))
 //@   loop 1: invariant forall s int, n int :: n < old(c35Cnt)[s] ==> c35Typ[s][n] == old(c35Typ)[s][n] && c35Val[s][n] == old(c35Val)[s][n]
 //@   loop 1: invariant len(t.tables["location"].entries) >= old(len(t.tables["location"].entries)) && c35Cnt[c35LocStmt(t)] == old(c35Cnt)[c35LocStmt(t)]
